@@ -145,10 +145,26 @@ type runTracer struct {
 	dayEvents map[string]bool
 	skip      map[string]bool
 	preCnt    [3]float64 // SICKER, CAPSUM, DRAISUM before Water() (sub.pre)
+	c1Move    [21]float64 // mineral N per layer before nmove() (nitro.move)
+	stopped   bool
 }
 
 func (t *runTracer) emit(e ev) {
 	t.mu.Lock()
+	if t.stopped {
+		nonFinite, outOfRange, outOfRangeN = nil, nil, nil
+		t.mu.Unlock()
+		return
+	}
+	if len(outOfRangeN) > 0 {
+		// a nitrogen quantity left the range of the fixed-point family (> 2e6 kg N/ha): the ledgers cannot be formed any
+		// more. The trace ends here with a marker that says whether the run had flagged itself unstable.
+		un, _ := e["unstable"].(bool)
+		e = ev{"ev": "run.overflow", "what": strings.Join(outOfRangeN, ","), "unstable": un, "at": e["ev"], "zeit": e["zeit"]}
+		outOfRangeN = nil
+		nonFinite = nil
+		t.stopped = true
+	}
 	t.seq++
 	e["seq"] = t.seq
 	e["run"] = t.run
@@ -210,10 +226,12 @@ func nstate(e ev, g *hermes.GlobalVarsMain) {
 	for i := 0; i < 4; i++ {
 		minv = math.Min(minv, math.Min(g.MINAOS[i], g.MINFOS[i]))
 	}
+	minc := math.Inf(1)
 	for _, c := range []float64{g.OUTSUM, g.DRAINLOSS, g.AUFNASUM, g.CUMDENIT, g.N2onitsum, g.UMS, g.DSUMM, g.NH4UMS, g.NH4Sum, g.NFIXSUM} {
-		_ = c
+		minc = math.Min(minc, c)
 	}
 	e["minPool"] = fx("minPool", minv, 6)
+	e["minCounter"] = fx("minCounter", minc, 6)
 	e["ndg"] = g.NDG.Index
 	e["ntil"] = g.NTIL.Index
 	e["nbr"] = g.NBR
@@ -515,10 +533,40 @@ func (t *runTracer) probe(point string, g *hermes.GlobalVarsMain, extra ...inter
 		a := g.AKF.Index
 		e["credit"] = subd == 1 && zeit >= g.SAAT[a] && zeit <= g.ERNTE2[a]
 		nstate(e, g)
+		t.c1Move = g.C1
 	case "sub.nitro":
 		zeit, subd := extra[0].(int), extra[1].(int)
 		e["zeit"], e["subd"] = zeit, subd
 		e["finished"] = extra[3].(bool)
+		// the non-negativity clamp of the transport routine, reconstructed per layer from the routine's own
+		// dispersion / convection arrays: what it added (sum) and the most negative value it met
+		if nl, ok := extra[5].(*hermes.NitroSharedVars); ok {
+			wdt := extra[2].(float64)
+			clamp := 0.0
+			minCk := 0.0
+			for z := 0; z < n; z++ {
+				c1 := t.c1Move[z]
+				if subd == 1 {
+					c1 -= g.PE[z]
+					if c1 < 0 {
+						c1 = 0
+					}
+				}
+				ca := (c1 + g.DN[z]*wdt/2) / (g.WG[0][z] * g.DZ.Num * 100)
+				if ca < 0 {
+					ca = 0
+				}
+				ck := (ca*g.WG[0][z] + nl.DISP[z] - nl.KONV[z]) * g.DZ.Num * 100
+				if ck < 0 {
+					clamp -= ck
+				}
+				if ck < minCk {
+					minCk = ck
+				}
+			}
+			e["clamp"] = lim("clamp", clamp, eN)
+			e["minCk"] = fx("minCk", minCk, 6)
+		}
 		if err, ok := extra[4].(error); ok && err != nil {
 			e["err"] = err.Error()
 		} else {
